@@ -153,6 +153,17 @@ func validOptionalPort(port string) bool {
 	return true
 }
 
+// lowerASCII lower-cases the ASCII letters of s and leaves all other bytes untouched.
+func lowerASCII(s string) string {
+	b := []byte(s)
+	for i, c := range b {
+		if 'A' <= c && c <= 'Z' {
+			b[i] = c + ('a' - 'A')
+		}
+	}
+	return string(b)
+}
+
 func IsUnsafeMethod(method string) bool {
 	switch method {
 	case http.MethodPost, http.MethodPut, http.MethodDelete, http.MethodPatch:
